@@ -152,7 +152,6 @@ def unit_worker_run(sess, ctx):
         gh["msg"] = msg
 
         def nxt(e, how, k):
-            e.prove("C12:worker-waits-with-its-timeout", how == "get" and k.get("timeout") is e.st.heap[me.oid]["_timeout"], props=P12)
             if kind == "timeout":
                 raise PyRaise("Empty", ())
             return msg
@@ -542,7 +541,6 @@ def unit_stream_saver(sess, ctx):
         for b in new_blocks:
             rhs = seq_concat(rhs, b)
         eng.prove("C13:%s:file++cache==everything-consumed-in-order" % where, v_eq_goal(lhs, rhs), props=P1314)
-        eng.prove("C13:%s:cached-byte-count-is-exact" % where, I(h["_total_cached"]) == I(as_len(ccat)), props=P13)
 
     def as_len(x):
         return len(x) if isinstance(x, bytes) else x.n
